@@ -46,6 +46,18 @@ theorem correct_stokes_eq_angle (phi qs us : ℝ) :
   rw [h1, Real.cos_add, Real.sin_add]
   ext <;> norm_num <;> ring
 
+/-- The amplitude / phase flavour of the angle-space correction is the Stokes flavour at (q_s, u_s) = A (cos 2φ_s, sin 2φ_s), for **every** amplitude —
+negative ones included (a fit of the modulation curve may return one; the sign is carried by the direction (q_s, u_s)). -/
+theorem delta_phi_ampl_eq_stokes (phi A ph : ℝ) :
+    Gen.delta_phi_ampl phi A ph 2 = Gen.delta_phi_stokes phi (A * Real.cos (2 * ph)) (A * Real.sin (2 * ph)) := by
+  simp only [Gen.delta_phi_ampl, Gen.delta_phi_stokes]
+  rl_simp
+  have e : (2:ℝ) * (phi - ph) = 2 * phi - 2 * ph := by ring
+  have e2 : (2.0:ℝ) = 2 := by norm_num
+  rw [e2, e, Real.sin_sub]
+  norm_num
+  ring
+
 /-- `modulo_2pi` at ℝ is the single fold. -/
 theorem modulo_2pi_real (x : ℝ) :
     Gen.modulo_2pi x = if x < -π then x + 2 * π else if π < x then x - 2 * π else x := by
